@@ -43,7 +43,7 @@ fn bounds(tier: Tier) -> Vec<(Fam, usize, u8)> {
             (Fam::Uni, 3, 0),
             (Fam::Arr, 4, 1),
             (Fam::Map, 4, 2),
-            (Fam::Xml, 3, 0),
+            (Fam::Xml, 4, 0),
             (Fam::Nest, 3, 0),
         ],
         Tier::Thorough => vec![
